@@ -47,12 +47,18 @@ WRAPPER_FORMS = {
 }
 
 
-# canonical bodies of the ProductSpaceUfuncs wrappers (wrap_ufunc_productspace)
+# canonical bodies of the ProductSpaceUfuncs wrappers (wrap_ufunc_productspace), as of /repo
+# 2fbe3b2: the out= branches of the (1,1) and (2,1) wrappers check the number of parts of `out`
+# BEFORE the loop (the model's psMapInto has that check; the older bodies without it are
+# deliberately NOT accepted any more)
 POWER_WRAPPER_FORMS = {
     ("if out is None:\n"
      "    result = [getattr(x.ufuncs, name)(**kwargs) for x in self.elem]\n"
      "    return self.elem.space.element(result)\n"
      "else:\n"
+     "    if len(out) != len(self.elem):\n"
+     "        raise ValueError('`out` has {} parts, expected {}'.format(len(out), "
+     "len(self.elem)))\n"
      "    for x, out_x in zip(self.elem, out):\n"
      "        getattr(x.ufuncs, name)(out=out_x, **kwargs)\n"
      "    return out"): ('PLegacyRule.mapOrInto', 'self, out=None, **kwargs'),
@@ -69,6 +75,9 @@ POWER_WRAPPER_FORMS = {
      "zip(self.elem, x2)]\n"
      "        return self.elem.space.element(result)\n"
      "    else:\n"
+     "        if len(out) != len(self.elem):\n"
+     "            raise ValueError('`out` has {} parts, expected {}'.format(len(out), "
+     "len(self.elem)))\n"
      "        for x, x2p, outp in zip(self.elem, x2, out):\n"
      "            getattr(x.ufuncs, name)(x2p, out=outp, **kwargs)\n"
      "        return out\n"
@@ -76,6 +85,9 @@ POWER_WRAPPER_FORMS = {
      "    result = [getattr(x.ufuncs, name)(x2, **kwargs) for x in self.elem]\n"
      "    return self.elem.space.element(result)\n"
      "else:\n"
+     "    if len(out) != len(self.elem):\n"
+     "        raise ValueError('`out` has {} parts, expected {}'.format(len(out), "
+     "len(self.elem)))\n"
      "    for x, outp in zip(self.elem, out):\n"
      "        getattr(x.ufuncs, name)(x2, out=outp, **kwargs)\n"
      "    return out"): ('PLegacyRule.binary', 'self, x2, out=None, **kwargs'),
